@@ -21,7 +21,7 @@ def escape(prefix, fmt, N, tier, u8=False):
     if fmt >= 5:
         units.append(dict(src='repo:xml.c', cflags=['-include', 'vh_libc.h']))
     return dict(name='%s_%s' % (prefix, FMTS[fmt]), src='esc/escape.c', defs=defs, units=units,
-                unwind=max(cap, 22) + 3, timeout=900 if tier == 'quick' else 3000, mem_gb=8, functional=True,
+                unwind=max(cap, 22) + 3, timeout=900 if tier == 'quick' else 3000, mem_gb=8 if tier == 'quick' else 20, functional=True,
                 bounds='every byte string of <= %d bytes%s' % (N, ' that is valid UTF-8' if u8 else ''),
                 desc='%s escaper: reserved characters only inside emitted escapes; unescape(escape(s)) == s%s%s' % (
                     FMTS[fmt], '; print_xml_as_text inverse' if fmt >= 5 else '', '; output valid UTF-8' if u8 else ''))
